@@ -780,6 +780,59 @@ fn xproc_case(cfg: &Cfg, slice: u64, rep: &mut Report, pairs: &[Pair], nslices: 
     }
 }
 
+// ------------------------------------------------------------------ the transforms as the evaluator applies them to ciphertexts
+/// `Evaluator::transform_to_ntt` / `transform_from_ntt` in their three forms on ciphertexts of sizes 2..4 at every level: each RNS
+/// component of each polynomial must equal the forward transform of that component by an independently constructed table for
+/// that prime (itself checked against the definition above), the inverse must restore the input, the three forms must agree,
+/// and the destination form must not depend on what the destination held (buffers of colliding and non-colliding shapes).
+fn evaluator_case(cfg: &Cfg, grp: &'static str, case: u64, rng: &mut Rng, rep: &mut Report) {
+    use crate::he::*; use heathcliff::*;
+    let Some(spec) = crate::props::c02::program_spec(rng, &[4, 8, 16, 64], Some(SchemeType::BFV)) else { return };
+    let Ok(kit) = Kit::new(&spec) else { return };
+    let n = kit.n(); let logn = n.trailing_zeros() as usize;
+    let cx = Cx { cfg, grp, case, n, q: spec.qs[0], bits: refm::bit_len(spec.qs[0]), src: "evaluator" };
+    let (_, c) = crate::props::c01::gen_plain(rng, n, kit.t());
+    let Ok(mut ct) = lib(|| kit.enc.encrypt_new(&kit.plain_from_coeffs(&c))) else { return };
+    let size = 2 + rng.usize_below(3);
+    for _ in 2..size { let Ok(f) = lib(|| kit.enc.encrypt_new(&kit.plain_from_coeffs(&c))) else { return }; match lib(|| kit.eval.multiply_new(&ct, &f)) { Ok(x) => ct = x, Err(_) => return } }
+    for level in 0..kit.levels.len() {
+        let id = *kit.levels[level].parms_id();
+        let Ok(src) = lib(|| if level == 0 { ct.clone() } else { kit.eval.mod_switch_to_new(&ct, &id) }) else { continue };
+        let qs = kit.level_qs(level);
+        let forms: Vec<Result<Ciphertext, Panicked>> = vec![
+            lib(|| { let mut x = src.clone(); kit.eval.transform_to_ntt_inplace(&mut x); x }),
+            lib(|| { let mut d = crate::prog::dirty(&kit); kit.eval.transform_to_ntt(&src, &mut d); d }),
+            lib(|| kit.eval.transform_to_ntt_new(&src))];
+        rep.count("entry_point", "Evaluator::transform_to_ntt (3 forms)"); rep.eval(Some(&format!("evaluator|n{}|k{}|size{}|L{}", n, qs.len(), size, level)));
+        let vcls = format!("ciphertext size {}", if size == 2 { "2" } else { ">2" });
+        if let Some(e) = forms.iter().find_map(|f| f.as_ref().err()) { rep.violation(&cx.sig("Evaluator::transform_to_ntt", &vcls, "panic"), format!("a coefficient-form ciphertext (size {}, level {}, N={}) was refused: {}", size, level, n, e.0), cx.replay(json!({"level": level, "size": size}))); continue; }
+        let f: Vec<&Ciphertext> = forms.iter().map(|x| x.as_ref().unwrap()).collect();
+        for (k, name) in [(1usize, "destination"), (2, "value-returning")] {
+            if f[k].data() != f[0].data() || f[k].parms_id() != f[0].parms_id() || f[k].size() != f[0].size() || f[k].is_ntt_form() != f[0].is_ntt_form() {
+                rep.violation(&cx.sig("Evaluator::transform_to_ntt", &vcls, "forms_differ"), format!("the {} form differs from the in-place form (size {}, level {}, N={}): sizes {} / {}, same level {}", name, size, level, n, f[k].size(), f[0].size(), f[k].parms_id() == f[0].parms_id()), cx.replay(json!({"level": level, "size": size, "form": name})));
+            }
+        }
+        // every component against an independently built table
+        let mut ok = f[0].is_ntt_form() && f[0].size() == size && f[0].parms_id() == &id;
+        if ok { 'outer: for p in 0..size { for (j, &q) in qs.iter().enumerate() {
+            let Ok(tab) = NTTTables::new(logn, &Modulus::new(q)) else { ok = true; break 'outer };
+            let mut want = src.poly_component(p, j).to_vec(); tab.ntt_negacyclic_harvey(&mut want);
+            if f[0].poly_component(p, j) != &want[..] { ok = false; rep.violation(&cx.sig("Evaluator::transform_to_ntt", &vcls, "value"), format!("polynomial {} component {} (q={}) is not the forward transform of the input component (size {}, level {}, N={})", p, j, q, size, level, n), cx.replay(json!({"level": level, "size": size}))); break 'outer; }
+        } } } else { rep.violation(&cx.sig("Evaluator::transform_to_ntt", &vcls, "metadata"), format!("result flags/size/level wrong (size {} vs {}, level {})", f[0].size(), size, level), cx.replay(json!({"level": level, "size": size}))); }
+        if !ok { continue; }
+        // inverse, three forms, restores the input
+        let inv: Vec<Result<Ciphertext, Panicked>> = vec![
+            lib(|| { let mut x = f[0].clone(); kit.eval.transform_from_ntt_inplace(&mut x); x }),
+            lib(|| { let mut d = crate::prog::dirty(&kit); kit.eval.transform_from_ntt(f[0], &mut d); d }),
+            lib(|| kit.eval.transform_from_ntt_new(f[0]))];
+        rep.count("entry_point", "Evaluator::transform_from_ntt (3 forms)");
+        for (k, r) in inv.iter().enumerate() { match r {
+            Err(e) => rep.violation(&cx.sig("Evaluator::transform_from_ntt", &vcls, "panic"), format!("form {} refused an NTT-form ciphertext: {}", k, e.0), cx.replay(json!({"level": level, "size": size}))),
+            Ok(x) => if x.data() != src.data() || x.size() != src.size() || x.parms_id() != src.parms_id() || x.is_ntt_form() { rep.violation(&cx.sig("Evaluator::transform_from_ntt", &vcls, "value"), format!("form {} does not restore the input of transform_to_ntt (size {} -> {}, level {}, N={})", k, size, x.size(), level, n), cx.replay(json!({"level": level, "size": size, "form": k}))); },
+        } }
+    }
+}
+
 pub fn run(cfg: &Cfg, rep: &mut Report) -> PropMeta {
     if let Ok(spec) = std::env::var(CHILD_ENV) { child(&spec); std::process::exit(0); }
 
@@ -831,12 +884,13 @@ pub fn run(cfg: &Cfg, rep: &mut Report) -> PropMeta {
         pair_case(cfg, i, rng, rep, &pairs[w.pair], &w);
     });
 
+    run_cases(cfg, "evaluator_transforms", cfg.n(400, 4000) as u64, rep, |i, rng, rep| evaluator_case(cfg, "evaluator_transforms", i, rng, rep));
     let nslices = cfg.pick(16u64, 32u64);
     run_cases(cfg, G_XPROC, nslices, rep, |i, _rng, rep| xproc_case(cfg, i, rep, &pairs, nslices));
 
     PropMeta {
         id: "C09", level: "exploration",
-        rule: "degrees N = 2..2^11 (quick) / 2..2^13 (thorough) x moduli {every prime = 1 mod 2N below 2^12; the primes get_primes(2N, bits, k) yields for every bit size 2..61 where any exist (k = 3 quick / 5 thorough, 61 bits: 6 / 8); 2 seed-dependent random friendly primes per bit size}. Per (N,q): root checks (psi^N = -1, psi = brute-force minimal primitive 2N-th root, three independently constructed tables - one on another thread - word-identical, one more in a second process); ALL N unit vectors through forward strict, forward lazy (scaled by 1, q-1, 4q-1, random psi^d + kq < 4q), inverse strict, inverse lazy (scaled by 1, q-1, 2q-1, random < 2q) against the column formula; dense vectors (random, all(q-1), lazy maxima all(4q-1) / all(2q-1), boundary mixes) against the O(N^2) definition, both round trips; dyadic product of transforms vs schoolbook negacyclic product (N <= 512 quick / 2048 thorough; sparse x dense and the closed form of (sum X^i)^2 above); negacyclic_shift for EVERY s in 0..2N-1. For every N the sub-space {all primes q < 4096 with q = 1 mod 2N (they exist for N <= 128)} x all unit vectors x all shifts is enumerated completely. evaluations = vectors/shifts checked; distinct = (N, modulus bits, vector kind) classes",
+        rule: "degrees N = 2..2^11 (quick) / 2..2^13 (thorough) x moduli {every prime = 1 mod 2N below 2^12; the primes get_primes(2N, bits, k) yields for every bit size 2..61 where any exist (k = 3 quick / 5 thorough, 61 bits: 6 / 8); 2 seed-dependent random friendly primes per bit size}. Per (N,q): root checks (psi^N = -1, psi = brute-force minimal primitive 2N-th root, three independently constructed tables - one on another thread - word-identical, one more in a second process); ALL N unit vectors through forward strict, forward lazy (scaled by 1, q-1, 4q-1, random psi^d + kq < 4q), inverse strict, inverse lazy (scaled by 1, q-1, 2q-1, random < 2q) against the column formula; dense vectors (random, all(q-1), lazy maxima all(4q-1) / all(2q-1), boundary mixes) against the O(N^2) definition, both round trips; dyadic product of transforms vs schoolbook negacyclic product (N <= 512 quick / 2048 thorough; sparse x dense and the closed form of (sum X^i)^2 above); negacyclic_shift for EVERY s in 0..2N-1. For every N the sub-space {all primes q < 4096 with q = 1 mod 2N (they exist for N <= 128)} x all unit vectors x all shifts is enumerated completely. evaluations = vectors/shifts checked; distinct = (N, modulus bits, vector kind) classes Evaluator level: transform_to_ntt / transform_from_ntt in three forms on BFV ciphertexts of sizes 2..4 at every level (N = 4..64), every component against an independently constructed table, inverse restores the input, destination buffers of varying shape",
         assumptions: vec![
             "u128 arithmetic of rustc; refm (Miller-Rabin with the 12 fixed bases is deterministic below 2^64)".into(),
             "documented lazy ranges: forward [0,4q) -> [0,4q) (rns.rs:725-732, ntt.rs:161-162); inverse [0,2q) -> [0,2q) (butterfly invariant of transform_from_rev, switch_key_inplace in evaluator.rs uses qi_lazy = 2q after intt_lazy, 4q after ntt_lazy). Inverse-lazy inputs in [2q,4q) are probed but counted out of precondition".into(),
